@@ -545,3 +545,95 @@ Example ex_repaired_accepts :
   cfg_init_options repaired ID_XZ 131072 (Some s_dict_pct) =
   POk (MkCfg ID_XZ 0 131072 6 (ox 65536 3 0 2)).
 Proof. repeat split; try (eexists; vm_compute; try split; reflexivity); vm_compute; reflexivity. Qed.
+
+(* ======================================================================================================
+   Wrap: the register width of the array sizes derived from on-disk counts (coq/C05/Wrap.v; strengthening,
+   session 3).  The model writes count * element_size in unbounded N; these statements make the obligation
+   the C code has to meet explicit, and props/C05/wrap.py generates the images that sit on the boundaries
+   named here (2^W / element size for W = 16, 32).
+   ====================================================================================================== *)
+From SqfsV Require C05.Wrap.
+
+(* no product (and no location-array size derived from one) reaches 2^64 for any value the on-disk
+   fields can carry and any block size the super block check admits: the model's unbounded
+   arithmetic is size_t arithmetic, there is no 64 bit wrap boundary to test *)
+Theorem size_products_fit_size_t :
+  forall num fcnt idc fsize bs fi fo cnt esz,
+  num < two32 -> fcnt < two32 -> idc < two16 -> fsize < two64 -> c_SQFS_MIN_BLOCK_SIZE <= bs -> esz < two32 ->
+  C05.Inode.get_block_count fsize bs fi fo = C05.RBase.Ok cnt ->
+  num * C05.Xattr.idsz < 2 ^ 36 /\ 8 * C05.Wrap.blocks_of (num * C05.Xattr.idsz) < 2 ^ 27 /\
+  fcnt * sizeof_sqfs_fragment_t < 2 ^ 36 /\ 8 * C05.Wrap.blocks_of (fcnt * sizeof_sqfs_fragment_t) < 2 ^ 27 /\
+  idc * 4 < 2 ^ 18 /\ 8 * C05.Wrap.blocks_of (idc * 4) < 2 ^ 9 /\
+  C05.Inode.gsz + cnt * 4 < 2 ^ 55 /\
+  sizeof_sqfs_dir_index_t + esz + 1 < 2 ^ 33.
+Proof. exact C05.Wrap.size_products_fit_size_t_l. Qed.
+Print Assumptions size_products_fit_size_t.
+Example ex_size_products_hyps :
+  C05.Inode.get_block_count 18446744073709551615 4096 C05.RBase.max32 0 = C05.RBase.Ok 4503599627370496.
+Proof. vm_compute. reflexivity. Qed.
+
+(* ... but 32 bits are not enough: witnesses a 32 / 64 bit field can carry *)
+Theorem xattr_tbl_exceeds_u32 :
+  exists num, num < two32 /\ C05.RBase.u32 (num * C05.Xattr.idsz) <> num * C05.Xattr.idsz /\
+              C05.RBase.u32 (num * C05.Xattr.idsz) = C05.Xattr.idsz.
+Proof. exact C05.Wrap.xattr_tbl_exceeds_u32_l. Qed.
+Print Assumptions xattr_tbl_exceeds_u32.
+Theorem frag_tbl_exceeds_u32 :
+  exists fcnt, fcnt < two32 /\ C05.RBase.u32 (fcnt * sizeof_sqfs_fragment_t) = 0 /\ fcnt * sizeof_sqfs_fragment_t <> 0.
+Proof. exact C05.Wrap.frag_tbl_exceeds_u32_l. Qed.
+Print Assumptions frag_tbl_exceeds_u32.
+Theorem file_blocks_exceed_u32 :
+  exists fsize cnt, fsize < two64 /\
+    C05.Inode.get_block_count fsize c_SQFS_MIN_BLOCK_SIZE C05.RBase.max32 0 = C05.RBase.Ok cnt /\
+    C05.RBase.u32 (cnt * 4) = 8 /\ C05.RBase.alloc_limit < C05.Inode.gsz + cnt * 4.
+Proof. exact C05.Wrap.file_blocks_exceed_u32_l. Qed.
+Print Assumptions file_blocks_exceed_u32.
+
+(* sqfs_xattr_reader_load with the table size held in a w bit register: identical to the model for
+   every w >= 36 (so it keeps the invariant get_desc relies on) ... *)
+Theorem xattr_load_w_faithful :
+  forall w img s, 36 <= w -> C05.Wrap.xattr_load_w w img s = C05.Xattr.xattr_load img s.
+Proof. exact C05.Wrap.xattr_load_w_faithful_l. Qed.
+Print Assumptions xattr_load_w_faithful.
+Theorem xattr_load_w_inv :
+  forall o w img s, 36 <= w -> C05.BaseProofs.post o (C05.Wrap.xattr_load_w w img s) C05.XattrProofs.xr_inv.
+Proof. exact C05.Wrap.xattr_load_w_inv_l. Qed.
+Print Assumptions xattr_load_w_inv.
+(* ... and for w = 32 an image exists that the truncated loader accepts (2^28 + 1 ids, one location)
+   although the model refuses it, and whose descriptor 512 -- inside the announced count -- is looked up
+   past id_block_starts[] *)
+Theorem xattr_load_w32_refuted :
+  exists x,
+    C05.Wrap.xattr_load_w 32 C05.Wrap.w32_ximg C05.Wrap.w32_xsup = C05.RBase.Ok x /\
+    C05.Xattr.x_num_ids x = 268435457 /\ C05.RBase.lenN (C05.Xattr.x_blocks x) = 1 /\
+    ~ C05.XattrProofs.xr_inv x /\
+    C05.Xattr.xattr_load C05.Wrap.w32_ximg C05.Wrap.w32_xsup = C05.RBase.Err C05.RBase.E_OOB /\
+    (forall uc fuel, C05.Xattr.xattr_get_desc uc C05.Wrap.w32_ximg fuel x 512 = C05.RBase.Crash) /\
+    (forall uc fixed efuel fuel, C05.Xattr.xattr_read_all uc fixed C05.Wrap.w32_ximg efuel fuel x 512 = C05.RBase.Crash).
+Proof. exact C05.Wrap.xattr_load_w32_refuted_l. Qed.
+Print Assumptions xattr_load_w32_refuted.
+
+(* the same for sqfs_frag_table_read (the object keeps the announced count beside the raw table) *)
+Theorem frag_table_read_w_faithful :
+  forall uc img w fuel s, 36 <= w -> C05.Super.s_frag_count s < two32 ->
+  match C05.Wrap.frag_table_read_w uc img w fuel s, C05.Super.frag_table_read uc img fuel s with
+  | C05.RBase.Ok t, C05.RBase.Ok tbl => fst t = tbl
+  | C05.RBase.Err a, C05.RBase.Err b => a = b
+  | C05.RBase.Crash, C05.RBase.Crash => True
+  | C05.RBase.OutOfFuel, C05.RBase.OutOfFuel => True
+  | _, _ => False
+  end.
+Proof. exact C05.Wrap.frag_table_read_w_faithful_l. Qed.
+Print Assumptions frag_table_read_w_faithful.
+Theorem frag_lookup_used_eq :
+  forall tbl used idx, C05.RBase.lenN tbl = used * sizeof_sqfs_fragment_t ->
+  C05.Wrap.frag_lookup_used (tbl, used) idx = C05.Super.frag_lookup tbl idx.
+Proof. exact C05.Wrap.frag_lookup_used_eq. Qed.
+Print Assumptions frag_lookup_used_eq.
+Theorem frag_table_read_w32_refuted :
+  forall uc img fuel,
+    C05.Wrap.frag_table_read_w uc img 32 fuel C05.Wrap.w32_fsup = C05.RBase.Ok ([], 268435456) /\
+    C05.Wrap.frag_lookup_used ([], 268435456) 0 = C05.RBase.Crash /\
+    C05.Super.frag_table_read uc img fuel C05.Wrap.w32_fsup = C05.RBase.Err C05.RBase.E_ALLOC.
+Proof. exact C05.Wrap.frag_table_read_w32_refuted_l. Qed.
+Print Assumptions frag_table_read_w32_refuted.
